@@ -83,6 +83,56 @@ func c08Table(w *ChannelWriter, level int) *util.Map[string, uint64] {
 	return &w.partitionInfos
 }
 
+// ---- records of OTHER objects (siblings whose names extend / are extended by the op's names) ----
+
+type c08Rec struct {
+	level int
+	key   string
+	val   uint64
+}
+
+// c08Foreign stores create and drop records of sibling objects - names that share a prefix with
+// the operation's names up to the '_' separator of the table keys, in the same and in another
+// database - and returns them; an operation on (db, c1, p1) must leave every one of them alone.
+func c08Foreign(w *ChannelWriter, db string) []c08Rec {
+	var recs []c08Rec
+	add := func(level int, ck, dk string) {
+		for _, k := range []string{ck, dk} {
+			v := uint64(7000 + len(recs))
+			c08Table(w, level).Store(k, v)
+			recs = append(recs, c08Rec{level, k, v})
+		}
+	}
+	for _, d := range []string{db, db + "_2", "x"} {
+		if d != db {
+			ck, dk := util.GetDBInfoKeys(d)
+			add(0, ck, dk)
+		}
+		for _, c := range []string{c08Coll, c08Coll + "_v2", "c"} {
+			if d != db || c != c08Coll {
+				ck, dk := util.GetCollectionInfoKeys(c, d)
+				add(1, ck, dk)
+			}
+			for _, pn := range []string{c08Part, c08Part + "_b", "p"} {
+				if d != db || c != c08Coll || pn != c08Part {
+					ck, dk := util.GetPartitionInfoKeys(pn, c, d)
+					add(2, ck, dk)
+				}
+			}
+		}
+	}
+	return recs
+}
+
+func c08ForeignIntact(w *ChannelWriter, recs []c08Rec) bool {
+	ok := true
+	for _, r := range recs {
+		v, has := c08Table(w, r.level).Load(r.key)
+		ok = vAnd(ok, vAnd(has, v == r.val))
+	}
+	return ok
+}
+
 // c08Seed fills the writer's tables with an arbitrary recorded state.
 func c08Seed(w *ChannelWriter, db string, use [3]bool) {
 	for l := 0; l < 3; l++ {
@@ -292,6 +342,7 @@ func VerifC08_Op() {
 	meta := &wMeta{}
 	w := wNewWriter(h, meta, nil, "milvus", "")
 	c08Seed(w, db, use)
+	foreign := c08Foreign(w, db)
 	probeOK := [3]bool{vBool("probe.db"), vBool("probe.coll"), vBool("probe.part")}
 	opFails := vBool("downstreamFails")
 	ts := vU64("ts")
@@ -375,5 +426,6 @@ func VerifC08_Op() {
 		}
 	}
 	vAssert(c08SameTab(c08Snapshot(w, db), ref), "C08.tables-only-move-as-allowed")
+	vAssert(c08ForeignIntact(w, foreign), "C08.records-of-other-objects-untouched")
 	vReach("end")
 }
